@@ -73,7 +73,8 @@ Lemma bounds_not_too_long nz gs cols :
 Proof.
   intros K. destruct (existsb cv_too_long _) eqn:E; auto.
   apply existsb_exists in E as [v [Hin Hv]].
-  eapply key_bounds_vals in Hin; [|apply where_ranges_kc; exact K].
+  apply (key_bounds_vals nz (fun _ => CNull) (where_ranges gs) cols false false v
+           (where_ranges_kc nz (fun _ => CNull) gs K)) in Hin.
   destruct Hin as [_ Hs]. congruence.
 Qed.
 
@@ -82,7 +83,7 @@ Proof.
   intros [Hr Hc]. unfold engine_matched, plain_matched.
   destruct (conv_groups (st_sch st) (q_groups q)) as [gs| |] eqn:CG; simpl; auto.
   destruct (check_order (st_sch st) (q_order q)) as [u| |]; simpl; auto.
-  specialize (Hc gs eq_refl).
+  specialize (Hc gs CG).
   set (rm := where_ranges gs).
   set (cols := choose_index (st_sch st) (q_order q) rm).
   pose proof (bounds_not_too_long (s_nz (st_sch st)) gs cols Hc) as TL. fold rm in TL.
